@@ -12,3 +12,4 @@ import TsVerif.C17.Props
 #print axioms TsVerif.C17.merge_wellformed_partial
 #print axioms TsVerif.C17.normalize_whole
 #print axioms TsVerif.C17.render_roundtrip_whole_fixed
+#print axioms TsVerif.C17.merge_multi_wellformed_partial
